@@ -21,7 +21,7 @@ SHARDS = {'quick': 16, 'thorough': 16}
 MIN_NONTRIVIAL = {'quick': 8000, 'thorough': 100000}
 REQUIRED_CLASSES = ['atom-valid', 'atom-invalid-prefix', 'atom-prefixed', 'atom-two-letter-prefix', 'system-symbol',
                     'compound', 'compound-parenthesised', 'compound-numeric-factor', 'compound-fractional-exponent',
-                    'compound-cancelling', 'reject-unknown-symbol', 'reject-pseudo-number', 'reject-foreign-chars', 'reject-inside-compound',
+                    'compound-cancelling', 'reject-unknown-symbol', 'reject-non-unit-under-zero-exponent', 'reject-pseudo-number', 'reject-foreign-chars', 'reject-inside-compound',
                     'roundtrip']
 REQUIRED_MONITORS = ['factor_compares', 'dimension_compares', 'roundtrip_compares', 'rejections_demanded']
 ASSUMPTIONS = ['units_ref reads UNIT_PREFIXES/UNIT_STANDARD/QUANTITY_UNITS once at worker start; the tables themselves are trusted',
@@ -121,7 +121,13 @@ def cases(rng, tier, shard, nshards, ctx):
     junk = ['x', 'zz', 'q', 'μ', 'k', 'kg ', '2', 'da', 'E', '_', 'k#', 'mm', 'Z', 'xy ', '?']
     for _ in range(nrej // nshards):
         r = rng.random()
-        if r < 0.04:
+        if r < 0.03:
+            # an atom that is no unit (unknown symbol, junk before a symbol, a prefix the unit does not admit) under the exponent ZERO,
+            # alone or inside a compound: x**0 = 1 does not make "x" a unit
+            bad = rng.choice(['foo', 'qq', 'blah', 'xm', '2m', 'kCel', 'mCel', 'mpc', 'cpc', 'kdeg', 'Kelvin', 'ug_', 'k#SLEN'])
+            yield dict(t='rej', kind='zero-exponent', bad=bad, exp=rng.choice(['0', '-0', '0:2', '0:1', '00']),
+                       form=rng.choice(['%s', '%s', 'kg*%s/s', 'J/(mol*%s)', '%s*m', 'm/%s', '(%s)']), x=None)
+        elif r < 0.04:
             # a "number" in a spelling the unit grammar does not have (words, underscores, capital E, plus sign, other digits)
             yield dict(t='rej', kind='pseudo-number', tok=rng.choice(PSEUDO_NUMBERS), form=rng.choice(['%s', '%s*m', 'm/%s', 'km*%s/s', '%s*kg*m2/s2', '(%s*m)/s']), x=None)
         elif r < 0.25:
@@ -320,6 +326,12 @@ def run_case(case, ctx):
                 return outcome(skip='random-string-is-a-unit')
             classes.append('reject-unknown-symbol')
             return must_reject(ctx, s, s, 1, 1, classes, mon, 'unknown-symbol')
+        if kind == 'zero-exponent':
+            if T.decompositions(case['bad']):
+                return outcome(skip='atom-is-a-unit')
+            text = case['form'] % (case['bad'] + case['exp'])
+            classes.append('reject-non-unit-under-zero-exponent')
+            return must_reject(ctx, text, case['bad'], 0, 1, classes, mon, 'non-unit-under-zero-exponent')
         if kind == 'pseudo-number':
             text = case['form'] % case['tok']
             classes.append('reject-pseudo-number')
